@@ -100,7 +100,8 @@ def proposedLoop (cfg : Cfg) (totB new : Coins) : List Denom → Int → Res Int
     else if (cfg.mkt d).hasMax && decide ((Dec.ofInt (totB d + new d)).m > (cfg.mkt d).maxLimit.m) then .err .borrowLimit
     else proposedLoop cfg totB new t (acc + (usdValue (cfg.mkt d) (new d)).m)
 
-/-- borrow.go `ValidateBorrow`: Σ value(new) + Σ value(existing) against Σ value(deposit)·LTV.
+/-- borrow.go `ValidateBorrow`: Σ value(new) + Σ value(existing) against Σ value(deposit)·LTV, then
+    `IsWithinValidLtvRange` on the merged position.
     `cash`: module account balance; `reserves`, `totB`: stored totals; `dep`,`bor`: the borrower's stored records. -/
 def validateBorrow (cfg : Cfg) (cash reserves totB dep bor new : Coins) : Res Unit :=
   let nd := supp cfg.ds new
@@ -117,7 +118,14 @@ def validateBorrow (cfg : Cfg) (cash reserves totB dep bor new : Coins) : Res Un
       else if !(pricesOk cfg bor) then .err .priceNotFound
       else if proposed + valueOf cfg bor < cfg.minBorrow.m then .err .belowMinimumBorrow
       else if proposed > borrowable cfg dep - valueOf cfg bor then .err .insufficientLtv
-      else .ok ()
+      else
+        -- fix 68803c96d: the position that will be stored (existing + new, merged per denom) must also pass the
+        -- routine liquidation uses
+        match isWithinLtv cfg dep (addC bor new) with
+        | .err e => .err e
+        | .panic => .panic
+        | .ok false => .err .insufficientLtv
+        | .ok true => .ok ()
 
 /-! ### state -/
 
@@ -315,10 +323,11 @@ def repay (cfg : Cfg) (s : St) (sender owner : User) (coins : Coins) : Res St :=
 
 /-! ### interest accrual (begin blocker, per denom) -/
 
-/-- `CalculateSupplyInterestFactor(newInterest, cash, borrows, reserves)` on integer arguments -/
+/-- `CalculateSupplyInterestFactor(newInterest, cash, borrows, reserves)` on integer arguments
+    (fix 485ea145c: factor 1 when cash + borrows − reserves is not positive) -/
 def supplyFactor (newInterest cash borrows reserves : Int) : Dec :=
   let total := ((Dec.ofInt cash).add (Dec.ofInt borrows)).sub (Dec.ofInt reserves)
-  if total.m = 0 then Dec.one else ((Dec.ofInt newInterest).quo total).add Dec.one
+  if total.m ≤ 0 then Dec.one else ((Dec.ofInt newInterest).quo total).add Dec.one
 
 /-- `AccrueInterest(denom)` at block time `now` (unix seconds) -/
 def accrue (cfg : Cfg) (s : St) (d : Denom) (now : Int) (phi : Dec) (apyPos : Bool) : Res St :=
@@ -331,8 +340,8 @@ def accrue (cfg : Cfg) (s : St) (d : Denom) (now : Int) (phi : Dec) (apyPos : Bo
       let bI := (s.brwIdx d).getD P
       let sI := (s.supIdx d).getD P
       let s0 := { s with brwIdx := upd s.brwIdx d (some bI), supIdx := upd s.supIdx d (some sI) }
-      -- CalculateBorrowRate → CalculateUtilizationRatio: `borrows.Quo(cash + borrows - reserves)` (only `< 0` is guarded)
-      if s.cash d + s.borrowed d - s.reserves d = 0 then .panic else
+      -- CalculateBorrowRate → CalculateUtilizationRatio returns 1 when cash + borrows - reserves is not positive
+      -- (fix 9da123695): no division by zero any more
       let interest := (phi.mul (Dec.ofInt (s.borrowed d))).truncateInt - s.borrowed d
       if interest = 0 && apyPos then .ok s0
       else
